@@ -162,6 +162,64 @@ theorem lru_bounded (cap : Nat) (l : List Nat) (h : Nat) (hl : l.length ≤ cap)
 
 example : lruAdd 2 [7, 8] 9 = [9, 7] ∧ lruAdd 2 [7, 8] 8 = [8, 7] := by decide
 
+/-! ## Lookup (`GetTransaction`) -/
+
+theorem execGet_none_iff (ex : List (Nat × Option Tx)) (h : Nat) : execGet ex h = none ↔ h ∉ ex.map (·.1) := by
+  induction ex with
+  | nil => simp [execGet]
+  | cons p r ih =>
+    obtain ⟨k, v⟩ := p
+    by_cases hk : k = h
+    · simp [execGet, hk]
+    · simp only [execGet, hk, if_false, List.map_cons, List.mem_cons, not_or]
+      rw [ih]
+      exact ⟨fun x => ⟨fun e => hk e.symm, x⟩, fun x => x.2⟩
+
+/-- `GetTransaction` answers `ErrNil` exactly for the hashes `IsExisted` denies: the two lookups never disagree. -/
+theorem get_nil_iff (s : Pool) (h : Nat) : s.get h = .nil ↔ s.existed h = false := by
+  have hex : s.existed h = false ↔ h ∉ s.hashes ∧ h ∉ s.execHashes := by
+    constructor
+    · intro e; constructor <;> intro hm
+      · have := existed_iff.mpr (Or.inl hm); rw [e] at this; cases this
+      · have := existed_iff.mpr (Or.inr hm); rw [e] at this; cases this
+    · rintro ⟨h1, h2⟩
+      cases e : s.existed h with
+      | false => rfl
+      | true => rcases existed_iff.mp e with x | x; exact absurd x h1; exact absurd x h2
+  rw [hex]
+  unfold Pool.get
+  cases hf : s.pending.find? (fun e => e.tx.hash == h) with
+  | some e =>
+    simp only [reduceCtorEq, false_iff, not_and]
+    intro hn
+    have := List.find?_some hf
+    have hm := List.mem_of_find?_eq_some hf
+    exact absurd (List.mem_map.mpr ⟨e, hm, by simpa using this⟩) hn
+  | none =>
+    have hn : h ∉ s.hashes := by
+      intro hm
+      obtain ⟨e, he, rfl⟩ := List.mem_map.mp hm
+      have := List.find?_eq_none.mp hf e he
+      simp at this
+    simp only
+    cases hg : execGet s.executed h with
+    | some v =>
+      simp only [reduceCtorEq, false_iff, not_and]
+      intro _ hx
+      have := (execGet_none_iff s.executed h).mpr hx
+      rw [hg] at this; cases this
+    | none => simp only [true_iff]; exact ⟨hn, (execGet_none_iff s.executed h).mp hg⟩
+
+/-- A pending hash is answered from the container (with a transaction of that hash), never from the store. -/
+theorem get_pending_of_contains (s : Pool) (h : Nat) (hc : s.contains h = true) : ∃ t, s.get h = .pending t ∧ t.hash = h := by
+  obtain ⟨e, he, rfl⟩ := List.mem_map.mp (contains_iff.mp hc)
+  unfold Pool.get
+  cases hf : s.pending.find? (fun x => x.tx.hash == e.tx.hash) with
+  | some x => exact ⟨x.tx, rfl, by simpa using List.find?_some hf⟩
+  | none => have := List.find?_eq_none.mp hf e he; simp at this
+
+example : ((Pool.empty 3).addTransaction ⟨1, 11, [], 0, 0, 0⟩).1.get 11 = .pending ⟨1, 11, [], 0, 0, 0⟩ ∧ (Pool.empty 3).get 11 = .nil := by decide
+
 /-! ## `Clear()` -/
 
 /-- What at-most-once would say if `Clear()` were one of the pool's operations. -/
